@@ -191,6 +191,15 @@ class Enumerator:
                         del st.disc[dk]
                 if k == "use":
                     v = self.val_of(st, rv["o"])
+                    if v is None and not is_const(rv["o"]) and fn.local_ty(l) == "bool":
+                        pl = op_place(rv["o"])
+                        if any(isinstance(e, dict) and "f" in e for e in pl.get("p", [])):
+                            key = self.key_of(pl)
+                            cur = st.disc.get(key)
+                            if cur in ("true", "false"):
+                                v = ("const", cur == "true")
+                            else:
+                                v = ("fieldbool", key)
                 elif k == "ref" and all(e == "*" for e in rv["p"].get("p", [])):
                     # references are transparent for the abstract value (`&*x`, `&x`)
                     v = st.vals.get(rv["p"]["l"])
@@ -328,6 +337,20 @@ class Enumerator:
                     st.disc[key] = cons
                     st.hist.append((key, cons))
                     bi = bb
+                    continue
+                if v and v[0] == "fieldbool" and t["ty"] == "bool":
+                    key = v[1]
+                    fl = ow
+                    for val, bb in targets:
+                        if val == 0:
+                            fl = bb
+                    s2 = st.clone()
+                    s2.disc[key] = "true"
+                    s2.hist.append((key, "true"))
+                    self._walk(ow, s2, out)
+                    st.disc[key] = "false"
+                    st.hist.append((key, "false"))
+                    bi = fl
                     continue
                 if v and v[0] in ("eqtest", "noteqtest") and t["ty"] == "bool":
                     _, key, enum, V = v
